@@ -300,6 +300,22 @@ def run_property(prop, jobs, tier, seed, meta, workers=None, level="model_checki
         if c.get("tb"):
             print(c["tb"], file=sys.stderr)
 
+    # guard against silent loss of coverage: jobs whose obligation count fell well below the committed baseline
+    # (e.g. every path now ends in a reader error before the oracle is reached) are reported as inconclusive
+    drops = []
+    try:
+        with open(os.path.join(VERIF, "coverage_baseline.json")) as f:
+            base = json.load(f).get(prop, {}).get(tier, {})
+    except (OSError, ValueError):
+        base = {}
+    for r in results:
+        b = base.get(r["name"])
+        n = r.get("obligations") or 0
+        if b and b >= 2 and n < 0.6 * b and not r.get("crash"):
+            drops.append(dict(job=r["name"], obligations=n, baseline=b))
+            print(f"COVERAGE-NOTE property={prop} job={r['name']} reached {n} obligations, baseline {b}: "
+                  f"inconclusive for the paths that no longer reach the oracle")
+
     undis = tot["obligations"] - tot["discharged"]
     coverage = dict(
         states=max(tot["paths"], 0), transitions=tot["transitions"],
@@ -313,6 +329,7 @@ def run_property(prop, jobs, tier, seed, meta, workers=None, level="model_checki
         known_findings=[dict(what=w, fingerprints=len(r)) for w, r in known_hits.items()],
         violations=[dict(job=v["job"], label=v["label"], cls=v["cls"], replay=v["replay"]) for v in violations],
         sensitivity_twins=dict(fired=len(twins_ok), silent=twins_bad),
+        coverage_drops=drops,
         functions_encoded=sorted(functions), bounds=meta.get("bounds", {}).get(tier, meta.get("bounds")),
         outside=meta.get("outside", []),
         solver=dict(z3=_z3_version(), queries=tot["queries"], solver_time_s=round(tot["solver_time"], 2),
